@@ -83,9 +83,10 @@ theorem inv_unexport {s : State} (h : Inv s) (p : Pk) (n : Nm) : Inv (unexport s
     · rw [if_pos hc]; exact Tab.unexportOwn_bodies h.bodies _ _ _ _
     · rw [if_neg hc]; exact h.bodies
 
-theorem inv_setq {s : State} (h : Inv s) (n : Nm) (val : Option Nat) : Inv (setq s n val) := by
-  unfold setq
-  cases hc : s.v.cell s.cur n with
+theorem inv_setqIn {s : State} (h : Inv s) (q : Pk) (n : Nm) (val : Option Nat) :
+    Inv (setqIn s q n val) := by
+  unfold setqIn
+  cases hc : s.v.cell q n with
   | none =>
     dsimp only
     refine ⟨h.graph, ?_, h.funs, h.bodies⟩
@@ -93,7 +94,20 @@ theorem inv_setq {s : State} (h : Inv s) (n : Nm) (val : Option Nat) : Inv (setq
   | some o =>
     dsimp only
     refine ⟨h.graph, ?_, h.funs, h.bodies⟩
-    exact Tab.assign_inv h.vars s.cur n val
+    exact Tab.assign_inv h.vars q n val
+
+theorem inv_setq {s : State} (h : Inv s) (n : Nm) (val : Option Nat) : Inv (setq s n val) :=
+  inv_setqIn h s.cur n val
+
+/-- `(setq q:n v)` / `(setq q::n v)` -/
+theorem inv_qsetq {s : State} (h : Inv s) (q : Pk) (n : Nm) (priv : Bool) (val : Nat) :
+    Inv (qsetq s q n priv val) := by
+  unfold qsetq
+  split
+  · split
+    · exact ⟨h.graph, Tab.assign_inv h.vars q n (some val), h.funs, h.bodies⟩
+    · exact h
+  · exact h
 
 theorem inv_defvar {s : State} (h : Inv s) (n : Nm) (val : Option Nat) : Inv (defvar s n val) := by
   unfold defvar
@@ -101,20 +115,42 @@ theorem inv_defvar {s : State} (h : Inv s) (n : Nm) (val : Option Nat) : Inv (de
   · rw [if_pos hc]; exact h
   · rw [if_neg hc]; exact inv_setq h n val
 
-theorem inv_makunbound {s : State} (h : Inv s) (n : Nm) : Inv (makunbound s n) :=
+/-- `(defvar q:n [v])` / `(defvar q::n [v])` -/
+theorem inv_qdefvar {s : State} (h : Inv s) (q : Pk) (n : Nm) (priv : Bool) (val : Option Nat) :
+    Inv (qdefvar s q n priv val) := by
+  unfold qdefvar
+  split
+  · split
+    · split
+      · exact h
+      · exact ⟨h.graph, Tab.assign_inv h.vars q n val, h.funs, h.bodies⟩
+    · exact h
+  · exact inv_setqIn h q n val
+
+theorem inv_unintern {s : State} (h : Inv s) (q : Pk) (n : Nm) : Inv (unintern s q n) :=
   ⟨h.graph, Tab.remove_inv h.graph h.vars _ _, h.funs, h.bodies⟩
+
+theorem inv_makunbound {s : State} (h : Inv s) (n : Nm) : Inv (makunbound s n) :=
+  inv_unintern h s.cur n
+
+theorem inv_intern {s : State} (h : Inv s) (q : Pk) (n : Nm) : Inv (intern s q n) := by
+  unfold intern
+  split
+  · exact h
+  · exact inv_setqIn h q n none
 
 theorem inv_fmakunbound {s : State} (h : Inv s) (n : Nm) : Inv (fmakunbound s n) :=
   ⟨h.graph, h.vars, Tab.remove_inv h.graph h.funs _ _, Tab.remove_bodies h.bodies _ _ _ _⟩
 
-theorem inv_defun {s : State} (h : Inv s) (n : Nm) (body : Nat) : Inv (defun s n body) := by
-  unfold defun
-  cases hc : s.f.cell s.cur n with
+theorem inv_defunIn {s : State} (h : Inv s) (q : Pk) (n : Nm) (body : Nat) :
+    Inv (defunIn s q n body) := by
+  unfold defunIn
+  cases hc : s.f.cell q n with
   | some o =>
     dsimp only
     refine ⟨h.graph, h.vars, ?_, ?_⟩
-    · exact Tab.assign_inv h.funs s.cur n (some body)
-    · exact Tab.assign_bodies h.bodies s.cur n body
+    · exact Tab.assign_inv h.funs q n (some body)
+    · exact Tab.assign_bodies h.bodies q n body
   | none =>
     dsimp only
     refine ⟨h.graph, ?_, ?_, ?_⟩
@@ -125,6 +161,9 @@ theorem inv_defun {s : State} (h : Inv s) (n : Nm) (body : Nat) : Inv (defun s n
     split
     · exact Tab.remove_inv h.graph h.vars _ _
     · exact h.vars
+
+theorem inv_defun {s : State} (h : Inv s) (n : Nm) (body : Nat) : Inv (defun s n body) :=
+  inv_defunIn h s.cur n body
 
 theorem inv_gdefine {s : State} (h : Inv s) (n : Nm) (body : Nat) (exp : Bool) :
     Inv (gdefine s n body exp) :=
@@ -161,6 +200,11 @@ theorem inv_step {s : State} (h : Inv s) (op : Op) : Inv (step s op) := by
   | makunbound n => exact inv_makunbound h n
   | fmakunbound n => exact inv_fmakunbound h n
   | gdefine n b e => exact inv_gdefine h n b e
+  | qsetq q n pr v => exact inv_qsetq h q n pr v
+  | qdefvar q n pr v => exact inv_qdefvar h q n pr v
+  | qdefun q n b => exact inv_defunIn h q n b
+  | unintern q n => exact inv_unintern h q n
+  | intern q n => exact inv_intern h q n
 
 /-- **tables = closure of the graph after any history** -/
 theorem inv_run (ops : List Op) : Inv (run State.init ops) := by
@@ -315,13 +359,63 @@ theorem own_visible {s : State} (h : Inv s) {p : Pk} {n : Nm} {d : Def} :
 
 example : (run State.init sampleOps).f.defs 0 1 = some { exp := false, val := some 14 } := by decide
 
-/-- **no operation loses a package's own definitions**: an own variable survives every operation
-    except `makunbound` of that name by the package itself and `defun` of that name by the package
-    itself (which consumes the unbound placeholder left by an `export` in advance) -/
+theorem defunIn_keeps_var (s : State) (q : Pk) (m : Nm) (b : Nat) {p : Pk} {n : Nm}
+    (hc : ¬(p = q ∧ n = m)) (hd : (s.v.defs p n).isSome = true) :
+    ((defunIn s q m b).v.defs p n).isSome = true := by
+  unfold defunIn
+  split
+  · exact hd
+  · dsimp only
+    split
+    · exact Tab.remove_keeps _ _ _ _ hc hd
+    · exact hd
+
+theorem defunIn_keeps_fun (s : State) (q : Pk) (m : Nm) (b : Nat) {p : Pk} {n : Nm}
+    (hd : (s.f.defs p n).isSome = true) : ((defunIn s q m b).f.defs p n).isSome = true := by
+  unfold defunIn
+  split
+  · exact Tab.assign_keeps q m (some b) hd
+  · exact Tab.create_keeps s.users q m _ hd
+
+theorem qsetq_keeps (s : State) (q : Pk) (m : Nm) (pr : Bool) (v : Nat) {p : Pk} {n : Nm} :
+    ((s.v.defs p n).isSome = true → ((qsetq s q m pr v).v.defs p n).isSome = true) ∧
+    (qsetq s q m pr v).f = s.f := by
+  unfold qsetq
+  split
+  · split
+    · exact ⟨fun hd => Tab.assign_keeps q m (some v) hd, rfl⟩
+    · exact ⟨id, rfl⟩
+  · exact ⟨id, rfl⟩
+
+theorem qdefvar_keeps (s : State) (q : Pk) (m : Nm) (pr : Bool) (v : Option Nat) {p : Pk} {n : Nm} :
+    ((s.v.defs p n).isSome = true → ((qdefvar s q m pr v).v.defs p n).isSome = true) ∧
+    (qdefvar s q m pr v).f.defs = s.f.defs := by
+  unfold qdefvar
+  split
+  · split
+    · split
+      · exact ⟨id, rfl⟩
+      · exact ⟨fun hd => Tab.assign_keeps q m v hd, rfl⟩
+    · exact ⟨id, rfl⟩
+  · exact setqIn_keeps s q m v
+
+theorem intern_keeps (s : State) (q : Pk) (m : Nm) {p : Pk} {n : Nm} :
+    ((s.v.defs p n).isSome = true → ((intern s q m).v.defs p n).isSome = true) ∧
+    (intern s q m).f.defs = s.f.defs := by
+  unfold intern
+  split
+  · exact ⟨id, rfl⟩
+  · exact setqIn_keeps s q m none
+
+/-- **no operation loses a package's own definitions**: an own variable of `p` survives every
+    operation except the removal of that very name from `p` (`makunbound` with `p` current,
+    `(unintern 'n 'p)`) and a `defun` of that name in `p` (`defun` with `p` current,
+    `(defun p::n …)`), which consumes the unbound placeholder left by an `export` in advance -/
 theorem own_var_never_lost (s : State) (op : Op) {p : Pk} {n : Nm}
     (hd : (s.v.defs p n).isSome = true) :
     ((step s op).v.defs p n).isSome = true ∨
-    (s.cur = p ∧ (op = .makunbound n ∨ ∃ b, op = .defun n b)) := by
+    (s.cur = p ∧ (op = .makunbound n ∨ ∃ b, op = .defun n b)) ∨
+    op = .unintern p n ∨ ∃ b, op = .qdefun p n b := by
   cases op with
   | defpackage q us ex => left; exact (defpackage_keeps s q us ex).1 hd
   | inPackage q => left; exact hd
@@ -343,21 +437,25 @@ theorem own_var_never_lost (s : State) (op : Op) {p : Pk} {n : Nm}
   | setq m v => left; exact (setq_keeps s m (some v)).1 hd
   | defun m b =>
     by_cases hc : p = s.cur ∧ n = m
-    · right; exact ⟨hc.1.symm, Or.inr ⟨b, by rw [hc.2]⟩⟩
-    · left; show ((defun s m b).v.defs p n).isSome = true
-      unfold defun
-      split
-      · exact hd
-      · dsimp only
-        split
-        · exact Tab.remove_keeps _ _ _ _ hc hd
-        · exact hd
+    · right; left; exact ⟨hc.1.symm, Or.inr ⟨b, by rw [hc.2]⟩⟩
+    · left; exact defunIn_keeps_var s s.cur m b hc hd
   | makunbound m =>
     by_cases hc : p = s.cur ∧ n = m
-    · right; exact ⟨hc.1.symm, Or.inl (by rw [hc.2])⟩
+    · right; left; exact ⟨hc.1.symm, Or.inl (by rw [hc.2])⟩
     · left; exact Tab.remove_keeps _ _ _ _ hc hd
   | fmakunbound m => left; exact hd
   | gdefine m b e => left; exact hd
+  | qsetq q m pr v => left; exact (qsetq_keeps s q m pr v).1 hd
+  | qdefvar q m pr v => left; exact (qdefvar_keeps s q m pr v).1 hd
+  | qdefun q m b =>
+    by_cases hc : p = q ∧ n = m
+    · right; right; right; exact ⟨b, by rw [hc.1, hc.2]⟩
+    · left; exact defunIn_keeps_var s q m b hc hd
+  | unintern q m =>
+    by_cases hc : p = q ∧ n = m
+    · right; right; left; rw [hc.1, hc.2]
+    · left; exact Tab.remove_keeps _ _ _ _ hc hd
+  | intern q m => left; exact (intern_keeps s q m).1 hd
 
 /-- an own function survives every operation except `fmakunbound` of that name by the package
     itself -/
@@ -385,18 +483,24 @@ theorem own_fun_never_lost (s : State) (op : Op) {p : Pk} {n : Nm}
   | setq m v =>
     left; show ((setq s m (some v)).f.defs p n).isSome = true
     rw [(setq_keeps s m (some v) (p := p) (n := n)).2]; exact hd
-  | defun m b =>
-    left; show ((defun s m b).f.defs p n).isSome = true
-    unfold defun
-    split
-    · exact Tab.assign_keeps s.cur m (some b) hd
-    · exact Tab.create_keeps s.users s.cur m _ hd
+  | defun m b => left; exact defunIn_keeps_fun s s.cur m b hd
   | makunbound m => left; exact hd
   | fmakunbound m =>
     by_cases hc : p = s.cur ∧ n = m
     · right; exact ⟨hc.1.symm, by rw [hc.2]⟩
     · left; exact Tab.remove_keeps _ _ _ _ hc hd
   | gdefine m b e => left; exact Tab.define_keeps _ _ _ _ _ hd
+  | qsetq q m pr v =>
+    left; show ((qsetq s q m pr v).f.defs p n).isSome = true
+    rw [(qsetq_keeps s q m pr v (p := p) (n := n)).2]; exact hd
+  | qdefvar q m pr v =>
+    left; show ((qdefvar s q m pr v).f.defs p n).isSome = true
+    rw [(qdefvar_keeps s q m pr v (p := p) (n := n)).2]; exact hd
+  | qdefun q m b => left; exact defunIn_keeps_fun s q m b hd
+  | unintern q m => left; exact hd
+  | intern q m =>
+    left; show ((intern s q m).f.defs p n).isSome = true
+    rw [(intern_keeps s q m (p := p) (n := n)).2]; exact hd
 
 example : ((run State.init sampleOps).v.defs 1 0).isSome = true ∧
     ((run State.init sampleOps).f.defs 0 1).isSome = true := ⟨by decide, by decide⟩
